@@ -84,7 +84,7 @@ func main() {
 	r.Assume("error codes of misuse calls that the property does not mention (Put/Delete on a bucket name, Delete of an empty key, Cursor.Delete in a read-only tx) are probed and reported under documented_contract_probes, not as violations")
 
 	viols := &violSet{}
-	budget := 175 * time.Second
+	budget := 200 * time.Second
 	if r.Thorough() {
 		budget = 14*time.Minute + 30*time.Second
 	}
@@ -107,7 +107,7 @@ func main() {
 	parts := []part{
 		{"probes", partProbes, 5, 5},
 		{"treap", partTreap, 30, 90},
-		{"seq", partSeq, 85, 420},
+		{"seq", partSeq, 110, 420},
 		{"fault", partFault, 25, 120},
 		{"crash", partCrash, 25, 240},
 		// ------------------------------------------------------------------
